@@ -251,6 +251,12 @@ impl Engine for OrswotEng {
     fn a_no_pending(a: &Value) -> bool {
         a["pend"].as_array().map(|x| x.is_empty()).unwrap_or(true)
     }
+    fn pending_from_a(a: &Value) -> Option<Value> {
+        Some(canon_orswot_b(&json!({"deferred": a["pend"]}))["deferred"].clone())
+    }
+    fn pending_of_proj(p: &Value) -> Option<Value> {
+        Some(p["deferred"].clone())
+    }
     fn op_proj(o: &O, d: &Dims) -> Value {
         orswot_op_proj(o, d)
     }
